@@ -165,6 +165,14 @@ class R:
                 out.append(pad + "%s[%s] = %s%s" % (self.var(st[1]), self.e(st[2]), self.e(st[3]), self.semi))
             elif k == "out":
                 out.append(pad + "out(%s)%s" % (self.e(st[1]), self.semi))
+            elif k == "lets":       # ("lets", name, text): a string variable initialised with a literal
+                out.append(pad + self.lets(st[1], self.strlit(st[2])))
+            elif k == "sets":       # ("sets", name, text | ("sv", other))
+                rhs = self.var(st[2][1]) if isinstance(st[2], tuple) else self.strlit(st[2])
+                out.append(pad + "%s = %s%s" % (self.var(st[1]), rhs, self.semi))
+            elif k == "outs":       # ("outs", text | ("sv", name)): a string value is output
+                arg = self.var(st[1][1]) if isinstance(st[1], tuple) else self.strlit(st[1])
+                out.append(pad + "out(%s)%s" % (arg, self.semi))
             elif k == "ret":
                 out.append(pad + "return %s%s" % (self.e(st[1]), self.semi))
             elif k in ("break", "continue"):
@@ -202,6 +210,12 @@ class R:
         pad = "    " * ind
         i, j = self.var(st[1]), self.var(st[2])
         return [pad + "for (%s = 0, %s = %d; %s < %s; %s++, %s--) {" % (i, j, st[3], i, j, i, j)] + self.block(st[4], ind + 1) + [pad + "}"]
+
+    def strlit(self, text):
+        return '"%s"' % text.replace("\\", "\\\\").replace('"', '\\"')
+
+    def lets(self, v, lit):
+        return self.let(v, lit)
 
     def main_calls(self):
         return ["out(entry(%d, %d))%s" % (a, b, self.semi) for a, b in VECTORS]
@@ -263,6 +277,9 @@ class RJs(R):
 class RTs(RJs):
     name, ext = "typescript", ".ts"
 
+    def lets(self, v, lit):
+        return "let %s: string = %s;" % (v, lit)
+
     def program(self, defs):
         parts = []
         for name, params, body in defs:
@@ -272,6 +289,9 @@ class RTs(RJs):
 
 class RJava(R):
     name, ext, start = "java", ".java", "main0"
+
+    def lets(self, v, lit):
+        return "String %s = %s;" % (v, lit)
 
     def let(self, v, e):
         return "int %s = %s;" % (v, e)
@@ -290,6 +310,9 @@ class RJava(R):
 class RC(R):
     name, ext, start = "c", ".c", "main0"
 
+    def lets(self, v, lit):
+        return "char *%s = %s;" % (v, lit)
+
     def let(self, v, e):
         return "int %s = %s;" % (v, e)
 
@@ -306,6 +329,9 @@ class RC(R):
 
 class RGo(R):
     name, ext, semi, start = "go", ".go", "", "main0"
+
+    def lets(self, v, lit):
+        return "var %s string = %s" % (v, lit)
 
     def let(self, v, e):
         return "var %s int = %s" % (v, e)
@@ -365,6 +391,11 @@ RENDERERS = [RPy(), RJs(), RTs(), RJava(), RC(), RGo(), RPhp()]
 
 # hand-written core programs, one per construct
 CORE_CONSTRUCTS = {
+    "string_values": [("entry", ["a", "b"], [("lets", "s0", "ab"), ("lets", "s1", "x y"), ("outs", ("sv", "s0")), ("outs", "lit 12"), ("sets", "s0", ("sv", "s1")),
+                                             ("if", ("cmp", "<", ("v", "a"), ("v", "b")), [("sets", "s1", "then")], [("sets", "s1", "else")]),
+                                             ("outs", ("sv", "s0")), ("outs", ("sv", "s1")), ("ret", ("v", "a"))])],
+    "string_quotes": [("entry", ["a", "b"], [("lets", "s0", "it's"), ("lets", "s1", 'say "hi"'), ("lets", "s2", "back\\slash"), ("outs", ("sv", "s0")), ("outs", ("sv", "s1")),
+                                             ("outs", ("sv", "s2")), ("outs", "12"), ("outs", ""), ("ret", ("v", "b"))])],
     "for_two_updates": [("entry", ["a", "b"], [("let", "t0", ("n", 0)), ("let", "i1", ("n", 0)), ("let", "j2", ("n", 0)),
                                                ("for2", "i1", "j2", 6, [("set", "t0", ("bin", "+", ("bin", "*", ("v", "t0"), ("n", 2)), ("bin", "-", ("v", "j2"), ("v", "i1")))),
                                                                         ("if", ("cmp", "==", ("v", "i1"), ("v", "a")), [("set", "t0", ("bin", "+", ("v", "t0"), ("v", "b")))], [])]),
